@@ -209,7 +209,11 @@ class TileManager(object):
 
             for created_tile in created_tiles:
                 if created_tile.coord in tiles:
-                    tiles[created_tile.coord].source = created_tile.source
+                    tile = tiles[created_tile.coord]
+                    tile.source = created_tile.source
+                    if tile is not created_tile:
+                        # keep cacheable flag, timestamp and size of the created tile
+                        tile.cacheable = created_tile.cacheable
 
         return tiles
 
